@@ -14,6 +14,7 @@ for P in "$@"; do
   grep -q "pydiffx/dom/" "$P" && IDS="$IDS C05 C06 C08 C13 C18 C19"
   grep -q "pygments_lexer.py" "$P" && IDS="$IDS C20"
   grep -q "pydiffx/sections.py" "$P" && IDS="$IDS C01 C09 C10"
+  [ -n "$ALL" ] && IDS="C01 C02 C03 C04 C05 C06 C07 C08 C09 C10 C11 C12 C13 C14 C15 C16 C17 C18 C19 C20"
   own="$(echo "$P" | sed -n 's#.*seeded/\(C[0-9]*\)-.*#\1#p')"
   IDS="$(echo $IDS $own | tr ' ' '\n' | sort -u | tr '\n' ' ')"
   D="$(mktemp -d /tmp/mx-XXXXXX)"
